@@ -341,7 +341,15 @@ class C12(PropBase):
                 "lookup has completed, finished lookups have their entry, at quiescence every requested module has one (c12_stats_sound, "
                 "c12_stats_has_finished, c12_stats_complete_at_quiescence); (d) pending counters of runs that MIX symbol and file lookups, "
                 "instruction level and poll level: processed <= requested <= distinct MODULE keys always, all equal at quiescence "
-                "(c12_source_instr_mixed_counters_bounded, c12_source_instr_mixed_counters, c12_source_mixed_counters). "
+                "(c12_source_instr_mixed_counters_bounded, c12_source_instr_mixed_counters, c12_source_mixed_counters); (e) the stats map "
+                "at instruction granularity: every entry classifies the single answer of a module with that leaf name located exactly "
+                "once, and a module slot holding a remembered answer has its entry (c12_source_instr_stats_sound, "
+                "c12_source_instr_stats_complete); the thread walks of a dump under every instruction-level interleaving of the per-thread "
+                "futures (c12_processor_threads_instr); adaptive requesters through any symbol entry point and through the processor "
+                "(c12_adaptive_source_program, c12_adaptive_source_program_any_entry, c12_adaptive_processor); (f) the statements of the "
+                "closure of locate_file_internal are regenerated as a program with its own interpreter whose meaning (suspensions, answer) "
+                "is FileModel.file_script for every file configuration, and that is what a locate_file requester observes "
+                "(c12_source_file_closure_meaning, c12_source_files_outcome_is_closure_meaning). "
                 "The correspondence run of modes 0, 2, 5, 6, 7 executes the interpreter on the regenerated program next to the "
                 "hand-written model (their answers must be identical); mode 7 also runs the processor model on the regenerated walker "
                 "and mode 0 the adaptive model on cases with adaptive lookups (kind 10+alt; also generated for modes 1, 4, 5, where the "
@@ -357,7 +365,7 @@ class C12(PropBase):
                 "program (each touches one mutex-protected object or only the task's locals; that atomicity and ProgModel.istep's "
                 "reading of each instruction are trusted); the round-4 micro-schedule liveness is a measure argument, the fairness-to-"
                 "termination bounds are poll-level (c12_no_lost_request, c12_wake_driven_finishes) and instruction-level "
-                "(c12_source_instr_fair_schedule_finishes); waker registration is poll-level (WakeModel). Cancellation of the lock holder is outside the property. No axioms.",
+                "(c12_source_instr_fair_schedule_finishes); waker registration is poll-level (WakeModel): the try_lock / register / try_lock window of MutexLockFuture::poll and the two-step unlock are not modelled at instruction granularity. The processor theorems take the frames of the finished stacks and the unwinder's lookups per frame as inputs. Cancellation of the lock holder is outside the property. No axioms.",
     }
     assumptions = ["no cancellation of a requester that holds the slot's lock inside the supplier (excluded by the property); dropping a "
                    "requester that merely waits is covered by c12_drop_waiter_* and mode 3",
